@@ -114,22 +114,100 @@ pub fn tier_of(d: &feoxdb::verif::StoreDump, key: &[u8], now: u64, ttl: bool) ->
     s
 }
 
+/// Time values are canonicalised by rank plus gap class: two states whose time
+/// values are order-isomorphic, with identical small gaps (<= 16, so that the
+/// `last + 1` clock rule behaves identically for any remaining depth) and identical
+/// gap classes around the TTL quanta (1 s, 1000 s), have the same futures under the
+/// alphabets used here. `VERIF_CANON=exact` switches to exact values (finer, slower).
+fn gap_class(g: u64) -> u64 {
+    const S: u64 = 1_000_000_000;
+    const K: u64 = 1_000 * S;
+    if g <= 16 {
+        g
+    } else if g + 16 >= S && g <= S + 16 {
+        100 + (g + 16 - S)
+    } else if g + 16 >= K && g <= K + 16 {
+        200 + (g + 16 - K)
+    } else if g < S {
+        1000
+    } else if g < K {
+        1001
+    } else {
+        1002
+    }
+}
+
+struct TimeCanon {
+    exact: bool,
+    sorted: Vec<u64>,
+}
+
+impl TimeCanon {
+    fn new(mut values: Vec<u64>) -> TimeCanon {
+        let exact = std::env::var("VERIF_CANON").map(|v| v == "exact").unwrap_or(false);
+        values.extend_from_slice(&[0, 1, crate::suites::TS_A, crate::suites::TS_B, crate::suites::FUT, u64::MAX, crate::sut::T0]);
+        values.sort_unstable();
+        values.dedup();
+        TimeCanon { exact, sorted: values }
+    }
+    fn code(&self, v: u64) -> u64 {
+        if self.exact {
+            v
+        } else {
+            self.sorted.binary_search(&v).map(|i| i as u64).unwrap_or(u64::MAX)
+        }
+    }
+    fn signature(&self) -> Vec<u8> {
+        let mut p = Vec::new();
+        if !self.exact {
+            for w in self.sorted.windows(2) {
+                p.extend_from_slice(&gap_class(w[1] - w[0]).to_le_bytes());
+            }
+            // which slots are the fixed constants
+            for c in [crate::suites::TS_A, crate::suites::TS_B, crate::suites::FUT, u64::MAX, crate::sut::T0] {
+                p.extend_from_slice(&self.code(c).to_le_bytes());
+            }
+        }
+        p
+    }
+}
+
 fn canon(s: &Suite, sut: &Sut, model: &Model, d: &feoxdb::verif::StoreDump) -> u64 {
+    let mut times = vec![sut.now()];
+    for key in s.tables.keys.iter().filter(|k| !k.is_empty() && k.len() <= 100 * 1024) {
+        times.push(sut.store().verif_clock_last(key));
+    }
+    for r in &d.records {
+        times.push(r.timestamp);
+        times.push(r.ttl_expiry);
+    }
+    for b in d.buffered.iter().chain(d.retirements.iter()) {
+        times.push(b.timestamp);
+    }
+    times.push(model.max_seen);
+    times.extend(model.key_max.values().copied());
+    let tc = TimeCanon::new(times);
     let mut parts: Vec<Vec<u8>> = Vec::new();
-    parts.push(sut.now().to_le_bytes().to_vec());
+    parts.push(tc.signature());
+    parts.push(tc.code(model.max_seen).to_le_bytes().to_vec());
+    for (k, v) in &model.key_max {
+        let mut p = k.clone();
+        p.extend_from_slice(&tc.code(*v).to_le_bytes());
+        parts.push(p);
+    }
+    parts.push(tc.code(sut.now()).to_le_bytes().to_vec());
     for (i, key) in s.tables.keys.iter().enumerate() {
         let mut p = vec![i as u8];
         if key.is_empty() || key.len() > 100 * 1024 {
             parts.push(p);
             continue;
         }
-        p.extend_from_slice(&sut.store().verif_clock_last(key).to_le_bytes());
+        p.extend_from_slice(&tc.code(sut.store().verif_clock_last(key)).to_le_bytes());
         if let Some(r) = d.records.iter().find(|r| &r.key == key) {
-            p.extend_from_slice(&r.timestamp.to_le_bytes());
-            p.extend_from_slice(&r.ttl_expiry.to_le_bytes());
+            p.extend_from_slice(&tc.code(r.timestamp).to_le_bytes());
+            p.extend_from_slice(&tc.code(r.ttl_expiry).to_le_bytes());
             p.extend_from_slice(&(r.value_len as u64).to_le_bytes());
             p.push(r.resident.is_some() as u8);
-            p.push((r.sector != 0) as u8);
             p.extend_from_slice(&r.sector.to_le_bytes());
             p.push(r.deferred as u8);
             p.push(d.cache.iter().any(|c| &c.key == key && c.record_ptr == Some(r.ptr)) as u8);
@@ -146,10 +224,12 @@ fn canon(s: &Suite, sut: &Sut, model: &Model, d: &feoxdb::verif::StoreDump) -> u
         p.push(b.shard as u8);
         p.extend_from_slice(b.op.as_bytes());
         p.extend_from_slice(&hash64(&[&b.key]).to_le_bytes());
-        p.extend_from_slice(&b.timestamp.to_le_bytes());
+        p.extend_from_slice(&tc.code(b.timestamp).to_le_bytes());
+        p.extend_from_slice(&b.sector.to_le_bytes());
     }
     p.push(0xfe);
-    let mut rets: Vec<_> = d.retirements.iter().map(|b| (hash64(&[&b.key]), b.timestamp, b.sector, b.work_status)).collect();
+    let mut rets: Vec<_> =
+        d.retirements.iter().map(|b| (hash64(&[&b.key]), tc.code(b.timestamp), b.sector, b.work_status)).collect();
     rets.sort();
     for r in rets {
         p.extend_from_slice(&r.0.to_le_bytes());
@@ -167,6 +247,7 @@ fn canon(s: &Suite, sut: &Sut, model: &Model, d: &feoxdb::verif::StoreDump) -> u
         p.extend_from_slice(&hash64(&[&c.key]).to_le_bytes());
         p.push(c.record_live as u8);
         p.push(c.referenced as u8);
+        p.push(d.records.iter().any(|r| Some(r.ptr) == c.record_ptr) as u8);
     }
     p.extend_from_slice(&d.keys_with_ttl.to_le_bytes());
     parts.push(p);
